@@ -418,6 +418,7 @@ func walsimMain(c *Ctx) {
 		c.Sample(map[string]any{"run_seed": seed, "case": wc})
 		tape := simrt.NewTape(seed)
 		vs := walCheck(c, wc, tape, true)
+		c.RunHash(nil, mustJSON(wc), len(vs), c.Res.Evaluations, len(c.distinct))
 		for _, v := range vs {
 			// minimise
 			min := shrinkLoop(wc, walShrinks, func(cand walCase) bool {
